@@ -14,7 +14,7 @@ import (
 
 // C17 - NewTranscoder accepts exactly the servable configurations and honours them.
 
-const ruleC17 = "rapid draws configurations: services from a pool (dynamic Bench and Route services, the generated LibraryService by name, an unknown service name, the same service twice), target protocol sets incl. empty and invalid values, codec / compression names incl. unknown ones, options given as transcoder-wide defaults and/or per service, and rule sets built from valid blocks (valid templates on suitable fields, exact selectors) into which at most ONE defect of a category the statement lists is injected: unknown codec, unknown compression, no protocol, invalid protocol value, no codec, service registered twice, template violating the http.proto grammar (8 mutation kinds), two bindings with the same method and template, body / response_body / variable selector naming no field, variable on a repeated, map or message-typed field, body path of two elements, selector matching no method, empty selector, misplaced wildcard, wildcard selector binding one template to several methods, REST-only service without bindings, nested additional bindings. Oracle (three-valued): a configuration with an injected defect must be rejected with a nil transcoder; one built only from valid blocks must be accepted, and then every binding must be reachable through a URL instantiated from its template with fresh segment values, a selector must bind exactly the method it names (every other method is probed through the same URL), and per-service options must override the defaults (observed from the wire form the backend receives). Non-trivial = the configuration has a WithRules rule or an option override; distinct by hash(configuration)."
+const ruleC17 = "rapid draws configurations: services from a pool (dynamic Bench and Route services, the generated LibraryService by name, an unknown service name, the same service twice), target protocol sets incl. empty and invalid values, codec / compression names incl. unknown ones, options given as transcoder-wide defaults and/or per service, and rule sets built from valid blocks (valid templates on suitable fields, exact selectors) into which at most ONE defect of a category the statement lists is injected: unknown codec, unknown compression, no protocol, invalid protocol value, no codec, service registered twice, template violating the http.proto grammar (8 mutation kinds), two bindings with the same method and template, body / response_body / variable selector naming no field, variable on a repeated, map or message-typed field, body path of two elements, selector matching no method, empty selector, misplaced wildcard, wildcard selector binding one template to several methods, REST-only service without bindings, nested additional bindings. Services are registered in a drawn order; options include compression lists and WithNoTargetCompression per service and as defaults. Oracle (three-valued): a configuration with an injected defect must be rejected with a nil transcoder; one built only from valid blocks must be accepted, and then every binding must be reachable through a URL instantiated from its template with fresh segment values, a selector must bind exactly the method it names (every other method is probed through the same URL), and per-service options must override the defaults (observed from the wire form the backend receives). Non-trivial = the configuration has a WithRules rule or an option override; distinct by hash(configuration)."
 
 type svcSpec struct {
 	Kind         string   `json:"kind"` // bench | route | library | unknown_name
